@@ -341,6 +341,9 @@ func firstDiffLine(a, b string) string {
 }
 
 func run(c *hx.Ctx) error {
+	// proto.NewRand(seed) starts seed k at the state seed 1 reaches after k-1 draws: the streams
+	// of different seeds are shifts of one another. Re-key from the first output.
+	c.R = proto.NewRand(c.R.U64())
 	res := c.Res
 	inproc, procs := 8, 3
 	res.Rule = fmt.Sprintf("programs and templates of /repo/test/compare/testdata (single files, .dir programs and templates) and generated ones (package-level multi-value var declarations, many globals with initialisation dependencies, functions sharing a line, closures, a second package in the module, init functions; templates with macros, imports, extends, using/itea, global variables), each built %d times in this process and once in each of %d child processes; a case is one input, distinct by source, non-trivial when it builds without error", inproc, procs)
@@ -438,8 +441,9 @@ func run(c *hx.Ctx) error {
 		j := c.R.Intn(i + 1)
 		progs[i], progs[j] = progs[j], progs[i]
 	}
-	ins = append(ins, progs[:min(len(progs), c.N(450, len(progs)))]...)
-	for i := 0; i < c.N(350, 6000); i++ {
+	ins = append(ins, progs[:min(len(progs), c.N(400, len(progs)))]...)
+	res.Sample(map[string]string{"first sampled corpus programs": progs[0].Name + " " + progs[1].Name + " " + progs[2].Name})
+	for i := 0; i < c.N(300, 6000); i++ {
 		g := &gen{r: c.R}
 		if i%3 == 2 {
 			files, main := g.templateFS()
@@ -467,7 +471,15 @@ func run(c *hx.Ctx) error {
 		res.AddBreak(proto.Break{Kind: "property", Name: cl, Case: in.Name + " (" + where + ")", Human: small.human(), Impl: impl, Model: model})
 	}
 	for i, in := range ins {
+		t0 := time.Now()
 		first[i] = buildOnce(in)
+		if el := time.Since(t0); el > 250*time.Millisecond && c.Quick() {
+			// a few corpus programs take seconds to build: in the quick tier they are built once
+			// here (and once in each child process)
+			res.Hist("slow-build-fewer-repeats")
+			res.Count(in.Name+"#"+strconv.FormatUint(c.Seed, 10), first[i].Err == "")
+			continue
+		}
 		ok := first[i].Err == ""
 		res.Count(in.Name+"#"+strconv.FormatUint(c.Seed, 10), ok)
 		switch {
